@@ -1,18 +1,28 @@
 """git suite: commit-log parsing through the CLI on real repositories (C14) + summaries (C15)."""
 
 TRACE = ("Git_Trace", "Git_Trace.cfg")
+PROPS = ["C14_BlockExact", "C14_NoChangeMigrates"]
 
 
 def plan(pid, tier, seed):
     quick = tier == "quick"
+    if quick:
+        mc = [{"module": "GitLog", "cfg": "GitLog_MC_quick.cfg", "emit": True, "sample": 500, "properties": PROPS, "timeout": 600}]
+    else:
+        mc = [{"module": "GitLog", "cfg": "GitLog_MC_thorough.cfg", "emit": True, "sample": 12000, "properties": PROPS, "timeout": 1800}]
     return {
         "harness": "gitlog",
         "needs_coca": True,
-        "mc": [],
+        "mc": mc,
         "gen": [],
         "rand": 240 if quick else 5000,
         "trace": TRACE,
     }
+
+
+def case_from_tlc(obj, h, g):
+    # every TLC history is built with real git and parsed through the CLI
+    return {"case": "tlc-" + h, "mode": "real", "history": obj["history"]}
 
 
 def nontrivial(rec):
